@@ -20,6 +20,14 @@ REGEXES = ["x", "^x", ".*", "[xy]$", "X", "x.y", "^$", "m[12]", "a,"]
 REFLAGS = [0, 2, 16]  # none, IGNORECASE, DOTALL
 
 
+# sampling weights: common values repeated so that equality leaves hit often, rare/awkward values still occur
+W_MEAS = ["m1", "m1", "m1", "_default", "_default", "a,b", "m2", "mé"]
+W_TVALS = [None, "", "x", "x", "x", "X", "xy", "xy", "x\ny", "a,b"]
+W_FVALS = [None, 0, -0.0, 1, 1, 1, 2, 2, -1.5, 2.0, math.inf]
+W_TKEYS = ["a", "a", "a", "b", "t x"]
+W_FKEYS = ["a", "a", "a", "f", "_t"]
+
+
 def times(pool=TIMES):
     return st.sampled_from(pool)
 
@@ -29,15 +37,15 @@ def offsets():
 
 
 @st.composite
-def points(draw, times_=None, meas=MEAS):
+def points(draw, times_=None, meas=W_MEAS):
     t = draw(times_ if times_ is not None else times())
-    tk = draw(st.lists(st.sampled_from(TKEYS), max_size=2, unique=True))
-    fk = draw(st.lists(st.sampled_from(FKEYS), max_size=2, unique=True))
+    tk = draw(st.lists(st.sampled_from(W_TKEYS), max_size=2, unique=True))
+    fk = draw(st.lists(st.sampled_from(W_FKEYS), max_size=2, unique=True))
     return {
         "time": t,
         "measurement": draw(st.sampled_from(meas)),
-        "tags": {k: draw(st.sampled_from(TVALS)) for k in tk},
-        "fields": {k: draw(st.sampled_from(FVALS)) for k in fk},
+        "tags": {k: draw(st.sampled_from(W_TVALS)) for k in tk},
+        "fields": {k: draw(st.sampled_from(W_FVALS)) for k in fk},
     }
 
 
@@ -57,7 +65,7 @@ def leaf(draw, time_pool=TIMES, allow_maps=True, allow_noop=True):
     attr = draw(st.sampled_from(["time", "meas", "tag", "tag", "field", "field"]))
     path = []
     if attr in ("tag", "field"):
-        path.append(["key", draw(st.sampled_from(TKEYS if attr == "tag" else FKEYS))])
+        path.append(["key", draw(st.sampled_from(W_TKEYS if attr == "tag" else W_FKEYS))])
         if draw(st.integers(0, 29)) == 0:
             path.append(["key", "b"])  # two-key path: always false
     if allow_maps and draw(st.integers(0, 6)) == 0:
@@ -76,11 +84,11 @@ def leaf(draw, time_pool=TIMES, allow_maps=True, allow_noop=True):
             if draw(st.integers(0, 3)) == 0:
                 rhs = rhs + timedelta(microseconds=draw(st.sampled_from([-1, 1])))
         elif attr == "meas":
-            rhs = draw(st.sampled_from(MEAS + ["", "M1"]))
+            rhs = draw(st.sampled_from(W_MEAS + ["", "M1"]))
         elif attr == "tag":
-            rhs = draw(st.sampled_from(TVALS))
+            rhs = draw(st.sampled_from(W_TVALS))
         else:
-            rhs = draw(st.sampled_from(FVALS + [0.0, 1.0, -1]))
+            rhs = draw(st.sampled_from(W_FVALS + [0.0, 1.0, -1]))
         test = ["cmp", op, rhs]
     elif r < 13 and attr in ("tag", "field"):
         test = ["exists"]
@@ -107,8 +115,10 @@ def queries(max_depth=3, **kw):
             st.tuples(st.sampled_from(["and", "or"]), children, children).map(list),
         )
 
-    return st.recursive(lf, extend, max_leaves=2 ** max_depth if max_depth < 4 else 10)
+    deep = st.recursive(lf, extend, max_leaves=2 ** max_depth if max_depth < 4 else 10)
+    shallow = st.one_of(lf, st.tuples(st.just("not"), lf).map(list), st.tuples(st.sampled_from(["and", "or", "or"]), lf, lf).map(list))
+    return st.one_of(lf, shallow, shallow, deep)
 
 
 def meas_filter():
-    return st.sampled_from([None, None, None, "m1", "m2", "_default", "a,b", "absent"])
+    return st.sampled_from([None, None, None, None, None, "m1", "m1", "m2", "_default", "a,b", "absent"])
